@@ -6,6 +6,11 @@ From PV Require Import Xnum Select PyLib Argsort Vars Vars_proofs Task_proofs.
 From PVGen Require Import GenHyper.
 From PVBridge Require Import VarsBridge.
 
+(* the accessors of Task that the hand model describes and T-core does not translate (get_variables, get_bounds, empty_solution, transform_solution, the dimension
+   computed by __init__) have exactly the modelled text: each a function of the CURRENT `self.variables`, recomputed at every call - no cached description *)
+Theorem C14_task_accessors_regenerated : gen_task_methods_shape = true.
+Proof. reflexivity. Qed.
+
 (* the description is recomputed from the variables on every call (REGENERATED shape of Task.get_bounds: fresh arrays on every return path), so it cannot drift from
    them through a caller - or a numeric kernel - editing an earlier answer in place *)
 Theorem C14_bounds_recomputed_each_call : gen_task_bounds_fresh = true.
